@@ -104,3 +104,109 @@ func H_C12(op, router, entry, target int) {
 		verifCover("unrelated-compared")
 	}
 }
+
+// H_C12_sched: the value-level half of C12, by bounded interleaving exploration. A request and a registration change
+// run as two threads; every interleaving with at most `pre` preemptions at lock acquisitions is explored on one state.
+// Judged afterwards: (1) no panic, no deadlock; (2) the concurrent request was answered as the registration state
+// before or after the change answers it; (3) the container that went through the concurrent phase answers a
+// symbolic choice of later requests exactly like one on which the change was made with no request in flight.
+// op, router, entry, target as in H_C12; pre: preemption bound
+func H_C12_sched(op, router, entry, target, pre int) {
+	type world struct {
+		c           *Container
+		a, b, extra *WebService
+		hits        []string
+	}
+	build := func() *world {
+		w := &world{c: NewContainer()}
+		w.c.Router(vRouter(router))
+		w.c.Filter(w.c.OPTIONSFilter)
+		mk := func(root string) *WebService {
+			ws := new(WebService)
+			ws.Path(root)
+			ws.SetDynamicRoutes(true)
+			ws.Route(ws.GET("/r").To(func(req *Request, resp *Response) { w.hits = append(w.hits, root+"/r") }))
+			ws.Route(ws.GET("/s").To(func(req *Request, resp *Response) { w.hits = append(w.hits, root+"/s") }))
+			return ws
+		}
+		w.a, w.b = mk("/a"), mk("/b")
+		w.c.Add(w.a)
+		w.c.Add(w.b)
+		w.extra = mk("/c")
+		return w
+	}
+	mutate := func(w *world) {
+		switch op {
+		case 0:
+			w.c.Add(w.extra)
+		case 1:
+			w.c.Remove(w.a)
+		case 2:
+			w.a.Route(w.a.POST("/x").To(func(req *Request, resp *Response) { w.hits = append(w.hits, "/a/x") }))
+		case 3:
+			w.a.RemoveRoute("/a/s", "GET")
+		}
+	}
+	type answer struct {
+		status int
+		hits   string
+		allow  string
+	}
+	serve := func(w *world, method, path string) answer {
+		w.hits = nil
+		r := vNewRec()
+		q := vReq{method: method, path: path}.http()
+		if entry == 0 {
+			w.c.Dispatch(r, q)
+		} else {
+			w.c.ServeHTTP(r, q)
+		}
+		return answer{r.code(), vLogString(w.hits), vHdr1(r, "Allow")}
+	}
+	// the concurrent request: to the route the change touches, to a route of the changed service it does not touch,
+	// to another service, or an OPTIONS request (the OPTIONS filter walks the registrations itself)
+	cm, cp := "GET", "/a/r"
+	switch target {
+	case 0:
+		cp = []string{"/c/r", "/a/r", "/a/x", "/a/s"}[op]
+		if op == 2 {
+			cm = "POST"
+		}
+	case 1:
+		cp = "/b/r"
+	case 2:
+		cm, cp = "OPTIONS", []string{"/c/r", "/a/r", "/a/x", "/a/s"}[op]
+	}
+	w := build()
+	var got answer
+	verifSpawn(func() { got = serve(w, cm, cp) })
+	verifSpawn(func() { mutate(w) })
+	verifRunSchedules(pre, vMsgStuck12)
+	verifCover("ran")
+	// reference worlds: before the change, and after it was made with no request in flight
+	before, after := build(), build()
+	mutate(after)
+	ab, aa := serve(before, cm, cp), serve(after, cm, cp)
+	verifObserveInt("status", got.status)
+	verifObserveStr("hits", got.hits)
+	verifObserveStr("allow", got.allow)
+	verifObserveStr("answer-before", vItoa(ab.status)+" "+ab.hits+" "+ab.allow)
+	verifObserveStr("answer-after", vItoa(aa.status)+" "+aa.hits+" "+aa.allow)
+	// recorded finding: the OPTIONS filter walks the registrations a second time
+	verifKnown("options-filter-second-walk", entry == 1 && op == 1 && target == 2 && got.status == 200 && got.hits == "" && got.allow == "")
+	verifAssert(got == ab || got == aa, "C12: a request served while registrations change is answered according to no registration state that existed during it")
+	if ab == aa {
+		verifCover("unaffected-request")
+	} else if got == aa {
+		verifCover("saw-the-change")
+	} else {
+		verifCover("saw-the-old-state")
+	}
+	// later requests see exactly the changed registrations
+	probes := [][2]string{{"GET", "/a/r"}, {"GET", "/a/s"}, {"POST", "/a/x"}, {"GET", "/b/r"}, {"GET", "/c/r"}, {"OPTIONS", "/a/x"}, {"OPTIONS", "/a/s"}, {"OPTIONS", "/c/r"}, {"GET", "/a/x"}}
+	for _, p := range probes {
+		x, y := serve(w, p[0], p[1]), serve(after, p[0], p[1])
+		verifAssert(x == y, "C12: after a registration change that overlapped a request, later requests are not answered according to the changed registrations")
+	}
+	verifCover("later-requests-compared")
+}
